@@ -565,6 +565,46 @@ def gen_rep_safe(rng):
     return {'pt': body, 'channels': chans, 'gt': None, 'exact': True}
 
 
+def gen_shared(rng):
+    """sibling inner iterations whose holds share registers (same factors, different bases), holds that depend
+    only on the outer index inside inner loops (shared across siblings; together with a depth-1 hold of the same
+    factor this is the depth-clash class), one or two channels"""
+    nch = rng.choice([1, 2])
+    chans = list(CHANNEL_NAMES[:nch])
+    ci = repr(float(rng.choice([F(1), F(1, 2), F(-1, 4), F(2)])))
+    cj = repr(float(rng.choice([F(1), F(-1, 2), F(1, 8), F(3)])))
+
+    def hold(names_coefs, base=None, dur=None):
+        v = {}
+        for ch in chans:
+            b = _dy(rng, -3, 3, 4) if base is None else base
+            coefs = [[n, [c, 'f']] for n, c in names_coefs if rng.random() < 0.85 or ch == chans[0]]
+            v[ch] = {'base': [repr(float(b)), 'f'], 'coef': coefs}
+        return {'t': 'hold', 'dur': dur or rng.choice(['1', '2', '1/2']), 'v': v}
+
+    body = []
+    if rng.random() < 0.3:
+        body.append(hold([('i', ci)]))                              # depth-1 hold of the outer factor
+    for k in range(rng.choice([1, 2, 2, 3])):
+        idx = 'j%d' % k
+        inner = [hold([('i', ci), (idx, cj)])]
+        if rng.random() < 0.5:
+            inner.append(hold([('i', ci), (idx, cj)]))
+        if rng.random() < 0.35:
+            inner.insert(rng.randrange(len(inner) + 1), hold([('i', ci)]))   # outer-only voltage inside the inner loop
+        if not any(Gen.uses(h, idx) for h in inner):
+            inner.append(hold([('i', ci), (idx, cj)]))
+        seq = inner[0] if len(inner) == 1 else {'t': 'seq', 'ch': inner}
+        body.append({'t': 'for', 'idx': idx, 'rng': _range(rng), 'body': seq})
+        if rng.random() < 0.25:
+            body.append(hold([('i', ci)]) if rng.random() < 0.5 else hold([]))
+    pt = {'t': 'for', 'idx': 'i', 'rng': _range(rng), 'body': body[0] if len(body) == 1 else {'t': 'seq', 'ch': body}}
+    if not Gen.uses(pt['body'], 'i'):
+        pt['body'] = {'t': 'seq', 'ch': [pt['body'], hold([('i', ci)])]}
+    rng.shuffle(chans)
+    return {'pt': pt, 'channels': chans, 'gt': None, 'exact': True}
+
+
 def exhaustive_cases():
     """all wrapper chains of length <= 3 over {for len 1,2,3 (step +1/-2), rep 1,2} around three body shapes, plus the
     sibling shape [hold ; chain(hold)], one channel; indices always used by the innermost hold"""
@@ -1027,15 +1067,17 @@ def run(ctx: core.Ctx):
                                  'x 4 body shapes (+ leading plain hold), 1 channel: %d templates' % len(ex))
     process(ex, 'exhaustive')
     rng = ctx.fork('random-dyadic')
-    process([Gen(rng, exact=True).case() for _ in range(ctx.n(450, 9000))], 'random-dyadic')
+    process([Gen(rng, exact=True).case() for _ in range(ctx.n(450, 25000))], 'random-dyadic')
     rng = ctx.fork('random-norep')
-    process([Gen(rng, exact=True, allow_rep=False).case() for _ in range(ctx.n(250, 5000))], 'random-norep')
+    process([Gen(rng, exact=True, allow_rep=False).case() for _ in range(ctx.n(250, 12000))], 'random-norep')
     rng = ctx.fork('rep-safe')
-    process([gen_rep_safe(rng) for _ in range(ctx.n(150, 2000))], 'rep-safe')
+    process([gen_rep_safe(rng) for _ in range(ctx.n(150, 5000))], 'rep-safe')
+    rng = ctx.fork('shared-registers')
+    process([gen_shared(rng) for _ in range(ctx.n(200, 6000))], 'shared-registers')
     rng = ctx.fork('random-general')
-    process([Gen(rng, exact=False, p_int=0.0).case() for _ in range(ctx.n(150, 3000))], 'random-general')
+    process([Gen(rng, exact=False, p_int=0.0).case() for _ in range(ctx.n(150, 8000))], 'random-general')
     rng = ctx.fork('malformed')
-    process(malformed_cases(rng, ctx.n(60, 600)), 'int-amplitudes')
+    process(malformed_cases(rng, ctx.n(60, 1500)), 'int-amplitudes')
     if ctx.drifts and not ctx.violations:
         # failing-input search: fresh random cases judged on the implementation's output
         rng = ctx.fork('search')
